@@ -5,7 +5,7 @@ import os
 from ..closure import close, numeric_slots
 from ..interp import Interp, Program
 from ..smworld import StateSpec, user_fn
-from ..values import ClassV, DictV, Ext, LazyV, Lin, Obj, Sym
+from ..values import Unsupported, ClassV, DictV, Ext, LazyV, Lin, Obj, Sym
 from . import sm
 
 EXPLANATION = (
@@ -293,8 +293,13 @@ def check(ctx):
     if os.environ.get("VERIF_SERIAL"):
         res = [_one(j) for j in jobs]
     else:
-        with mp.get_context("fork").Pool(min(n, os.cpu_count() or 2)) as pool:
-            res = pool.map(_one, jobs, chunksize=1)
+        import concurrent.futures as cf
+
+        try:
+            with cf.ProcessPoolExecutor(max_workers=min(n, os.cpu_count() or 2), mp_context=mp.get_context("fork")) as pool:
+                res = list(pool.map(_one, jobs))
+        except cf.process.BrokenProcessPool as e:
+            raise Unsupported(f"a worker process of the closure died (out of memory?): {e}")
     rules = ["C15.M1", "C15.M2", "C15.M3", "C15.T1", "C15.T2", "C15.A", "CRASH"]
     for r in res:
         ctx.add("states", r["states"])
